@@ -7,6 +7,15 @@ Read from the code on every run
     `has_access(x, user_roles)` and raises 403), whether that call comes before every other access to unit / run data
     (`agg.…(…)`, repository method calls, unguarded look-up helpers), and for listings whether every element is
     filtered by `has_access(x, user_roles)`.
+  * which endpoints *take a unit or a run* is decided semantically, not by parameter names in the path: a value that
+    flows (assignments, same-module helper calls) from ANY request parameter (path, query, header, cookie, body — taken
+    from `route.dependant`) into a parameter named `engine_id` / `unit_id` / `run_id` of a method of the aggregator
+    façade (`Aggregator`, `FromFrontend`, `FromEngine`) or of a repository class, or into `_engine_data_map[...]`,
+    makes the endpoint take that object; such an endpoint must call the role guard first (table theorem) and is probed
+    in the differential run (`id_param`, `id_in` say how to pass the id).
+  * the body of `auth.has_access` is translated into an expression term (`hasAccessExpr`); the Lean side proves that it
+    evaluates to the model's `hasAccess` for all role lists, so a changed rule (extra disjunct, super-role …) breaks the
+    proof half.
   * the LSP websocket endpoint is recognised by its use of `OPPythonLSPServer`; its unit is the `engineId`
     initialisation option and it reads unit data through `openpectus.lsp.lsp_analysis.fetch_*` (checked by `ast`:
     those functions call `get_registered_engine_data` and never `has_access`).
@@ -91,6 +100,182 @@ def unguarded_lookup(fn) -> bool:
     return ("get_registered_engine_data" in src or "get_by_run_id" in src) and "has_access" not in src
 
 
+
+ID_PARAM_KIND = {"engine_id": "unit", "unit_id": "unit", "run_id": "run"}
+_facade_cache: dict = {}
+
+
+def _facade_methods() -> dict[str, list[list[str]]]:
+    """method name -> parameter-name lists (without self) of every method of that name on the aggregator façade and
+    the repository classes."""
+    if _facade_cache:
+        return _facade_cache
+    from openpectus.aggregator.aggregator import Aggregator, FromFrontend, FromEngine
+    import openpectus.aggregator.data.repository as R
+    classes = [Aggregator, FromFrontend, FromEngine] + \
+        [c for c in vars(R).values() if inspect.isclass(c) and c.__name__.endswith("Repository")]
+    for c in classes:
+        for name, f in inspect.getmembers(c, inspect.isfunction):
+            if name.startswith("__"):
+                continue
+            _facade_cache.setdefault(name, []).append(list(inspect.signature(f).parameters)[1:])
+    return _facade_cache
+
+
+def _names_in(expr: ast.AST) -> set[str]:
+    return {n.id for n in ast.walk(expr) if isinstance(n, ast.Name)}
+
+
+def _taint(tree: ast.AST, seeds: dict[str, set[str]]) -> dict[str, set[str]]:
+    """Flow-insensitive taint: variable -> request parameters it may derive from."""
+    t = {k: set(v) for k, v in seeds.items()}
+
+    def origins(expr) -> set[str]:
+        out: set[str] = set()
+        for n in _names_in(expr):
+            out |= t.get(n, set())
+        return out
+    changed = True
+    while changed:
+        changed = False
+        for n in ast.walk(tree):
+            pairs = []
+            if isinstance(n, ast.Assign):
+                pairs = [(tg, n.value) for tg in n.targets]
+            elif isinstance(n, (ast.AnnAssign, ast.AugAssign)) and n.value is not None:
+                pairs = [(n.target, n.value)]
+            elif isinstance(n, (ast.For, ast.AsyncFor)):
+                pairs = [(n.target, n.iter)]
+            elif isinstance(n, ast.NamedExpr):
+                pairs = [(n.target, n.value)]
+            elif isinstance(n, (ast.With, ast.AsyncWith)):
+                pairs = [(i.optional_vars, i.context_expr) for i in n.items if i.optional_vars is not None]
+            elif isinstance(n, ast.comprehension):
+                pairs = [(n.target, n.iter)]
+            for tg, val in pairs:
+                o = origins(val)
+                if not o:
+                    continue
+                for name in _names_in(tg):
+                    if not o <= t.get(name, set()):
+                        t.setdefault(name, set()).update(o)
+                        changed = True
+    return t
+
+
+def object_sinks(fn, seeds: dict[str, set[str]] | None = None, depth: int = 0) -> list[tuple]:
+    """[(position, 'unit'|'run', origin request parameters)] : places where a request-derived value is used as the
+    id of a unit or run. `seeds` = tainted parameters of `fn` (default: none; the caller passes the request params)."""
+    tree = _fn_ast(fn)
+    if not isinstance(tree, (ast.FunctionDef, ast.AsyncFunctionDef)) or depth > 3:
+        return []
+    mod = inspect.getmodule(fn)
+    t = _taint(tree, seeds or {})
+
+    def origins(expr) -> set[str]:
+        out: set[str] = set()
+        for n in _names_in(expr):
+            out |= t.get(n, set())
+        return out
+    out = []
+    methods = _facade_methods()
+    for n in ast.walk(tree):
+        pos = (getattr(n, "lineno", 0), getattr(n, "col_offset", 0))
+        if isinstance(n, ast.Subscript) and "_engine_data_map" in ast.unparse(n.value):
+            o = origins(n.slice)
+            if o:
+                out.append((pos, "unit", o))
+        if not isinstance(n, ast.Call):
+            continue
+        f = n.func
+        if isinstance(f, ast.Attribute) and f.attr in methods:
+            for params in methods[f.attr]:
+                bound = list(zip(params, n.args)) + [(k.arg, k.value) for k in n.keywords if k.arg]
+                for pname, arg in bound:
+                    if pname in ID_PARAM_KIND:
+                        o = origins(arg)
+                        if o:
+                            out.append((pos, ID_PARAM_KIND[pname], o))
+        elif isinstance(f, ast.Name):
+            callee = getattr(mod, f.id, None)
+            if inspect.isfunction(callee) and inspect.getmodule(callee) is mod and callee is not fn:
+                cparams = list(inspect.signature(callee).parameters)
+                bound = list(zip(cparams, n.args)) + [(k.arg, k.value) for k in n.keywords if k.arg]
+                cseeds = {p: origins(a) for p, a in bound if origins(a)}
+                if cseeds:
+                    for _, kind, o in object_sinks(callee, cseeds, depth + 1):
+                        out.append((pos, kind, o))
+    return sorted(out, key=lambda x: x[0])
+
+
+def request_params(route) -> dict[str, str]:
+    """request parameter name -> where it comes from (path / query / header / cookie / body)."""
+    d = getattr(route, "dependant", None)
+    out: dict[str, str] = {}
+    if d is None:
+        return out
+    for where in ("path", "query", "header", "cookie", "body"):
+        for f in getattr(d, where + "_params", []) or []:
+            out[f.name] = where
+    return out
+
+
+def translate_has_access() -> str:
+    """`auth.has_access` as a Lean `AccExpr` term (see OPM.Access.AccExpr); anything outside the small expression
+    language becomes `.unknown`, which no theorem can be proved about."""
+    from openpectus.aggregator.routers import auth
+    tree = _fn_ast(auth.has_access)
+    if not isinstance(tree, ast.FunctionDef) or len(tree.args.args) != 2:
+        return '(.unknown "signature")'
+    obj, user = tree.args.args[0].arg, tree.args.args[1].arg
+    env: dict[str, str] = {user: ".user"}
+    body = [st for st in tree.body if not (isinstance(st, ast.Expr) and isinstance(st.value, ast.Constant))]
+
+    def setx(e) -> str | None:
+        if isinstance(e, ast.Name) and e.id in env:
+            return env[e.id]
+        if isinstance(e, ast.Attribute) and isinstance(e.value, ast.Name) and e.value.id == obj and e.attr == "required_roles":
+            return ".req"
+        if isinstance(e, ast.Call) and isinstance(e.func, ast.Name) and e.func.id in ("set", "list", "frozenset") \
+                and len(e.args) == 1 and not e.keywords:
+            return setx(e.args[0])
+        if isinstance(e, ast.BinOp) and isinstance(e.op, (ast.BitAnd, ast.BitOr)):
+            a, b = setx(e.left), setx(e.right)
+            if a and b:
+                return f"(.{'inter' if isinstance(e.op, ast.BitAnd) else 'union'} {a} {b})"
+        return None
+
+    def boolx(e) -> str:
+        if isinstance(e, ast.BoolOp):
+            parts = [boolx(v) for v in e.values]
+            op = "or" if isinstance(e.op, ast.Or) else "and"
+            out = parts[-1]
+            for x in reversed(parts[:-1]):
+                out = f"(.{op} {x} {out})"
+            return out
+        if isinstance(e, ast.UnaryOp) and isinstance(e.op, ast.Not):
+            return f"(.not {boolx(e.operand)})"
+        if isinstance(e, ast.Compare) and len(e.ops) == 1 and isinstance(e.left, ast.Call) and \
+                isinstance(e.left.func, ast.Name) and e.left.func.id == "len" and len(e.left.args) == 1 and \
+                isinstance(e.comparators[0], ast.Constant) and e.comparators[0].value == 0:
+            sx = setx(e.left.args[0])
+            if sx:
+                if isinstance(e.ops[0], ast.Eq):
+                    return f"(.isEmpty {sx})"
+                if isinstance(e.ops[0], (ast.Gt, ast.NotEq)):
+                    return f"(.nonEmpty {sx})"
+        return f"(.unknown {_lean_str(ast.unparse(e)[:120])})"
+    for st in body[:-1]:
+        if isinstance(st, ast.Assign) and len(st.targets) == 1 and isinstance(st.targets[0], ast.Name) and setx(st.value):
+            env[st.targets[0].id] = setx(st.value)
+        else:
+            return f"(.unknown {_lean_str(ast.unparse(st)[:120])})"
+    last = body[-1] if body else None
+    if not isinstance(last, ast.Return) or last.value is None:
+        return '(.unknown "no return")'
+    return boolx(last.value)
+
+
 def classify(route) -> dict:
     from fastapi.routing import APIRoute, APIWebSocketRoute
     fn = getattr(route, "endpoint", None)
@@ -99,18 +284,29 @@ def classify(route) -> dict:
     row = dict(path=getattr(route, "path", ""), method="WS" if isinstance(route, APIWebSocketRoute) else
                ",".join(sorted(getattr(route, "methods", None) or [])) or "-",
                handler=getattr(fn, "__qualname__", "") or "", router=modname.split(".")[-1],
-               target="none", guard="none", touches=False, command=False, note="")
-    if not isinstance(route, (APIRoute, APIWebSocketRoute)) or not modname.startswith("openpectus.aggregator.routers"):
+               target="none", guard="none", touches=False, command=False, note="", id_param="", id_in="")
+    if not isinstance(route, (APIRoute, APIWebSocketRoute)) or not modname.startswith("openpectus."):
         return row
     tree = _fn_ast(fn)
     if tree is None:
         row["note"] = "no source"
         return row
     path_params = re.findall(r"{(\w+)}", row["path"])
-    if any(p in UNIT_PARAMS for p in path_params):
-        row["target"] = "unit"
-    elif any(p in RUN_PARAMS for p in path_params):
-        row["target"] = "run"
+    rparams = request_params(route)
+    sinks = object_sinks(fn, {p: {p} for p in rparams})
+    for kind in ("unit", "run"):
+        hit = [x for x in sinks if x[1] == kind]
+        if hit:
+            row["target"] = kind
+            origin = sorted(hit[0][2], key=lambda p: (rparams.get(p) != "path", p))[0]
+            row["id_param"], row["id_in"] = origin, rparams.get(origin, "")
+            break
+    if row["target"] == "none":          # named like an object route but never uses the id (constant answer)
+        for p in path_params:
+            if p in UNIT_PARAMS or p in RUN_PARAMS:
+                row["target"] = "unit" if p in UNIT_PARAMS else "run"
+                row["id_param"], row["id_in"] = p, "path"
+                break
     row["command"] = "POST" in row["method"]
     src = ast.unparse(tree)
 
@@ -123,6 +319,7 @@ def classify(route) -> dict:
         takes = "engineId" in inspect.getsource(PL.get_engine_id)
         if takes:
             row["target"] = "unit"
+            row["id_param"], row["id_in"] = "engineId", "lsp-init"
         row["touches"] = bool(reads)
         row["guard"] = "none" if ("has_access" not in inspect.getsource(LA) and "user_roles" not in src) else "unknown"
         row["note"] = "unit = initializationOptions.engineId; reads via lsp_analysis." + "/".join(reads)
@@ -156,7 +353,8 @@ def classify(route) -> dict:
             events.append((pos, "touch"))
         elif isinstance(f, ast.Attribute) and root in repo_vars:
             events.append((pos, "touch"))
-    touches = [p for p, k in events if k == "touch"]
+    guard_positions = {p for p, k in events if k.startswith("guard-")}
+    touches = [p for p, k in events if k == "touch"] + [x[0] for x in sinks if x[0] not in guard_positions]
     guards = [(p, k) for p, k in events if k.startswith("guard-")]
     row["touches"] = bool(touches or guards)
     if row["target"] in ("unit", "run"):
@@ -226,7 +424,8 @@ def generate() -> Path:
                     f"{_lean_str(r['router'])}, .{r['target']}, .{r['guard']}, "
                     f"{'true' if r['touches'] else 'false'}, {'true' if r['command'] else 'false'}⟩")
     lines.append(",\n".join(body))
-    lines += ["]", "", "end OPM.Gen.Routes", ""]
+    lines += ["]", "", "/-- `auth.has_access`, translated from its source -/",
+              f"def hasAccessExpr : AccExpr := {translate_has_access()}", "", "end OPM.Gen.Routes", ""]
     text = "\n".join(lines)
     if not OUT.exists() or OUT.read_text() != text:
         OUT.parent.mkdir(parents=True, exist_ok=True)
